@@ -197,98 +197,110 @@ def run(ctx, ck):
     ck.floor('np.angle values reaching a formatter', n_ang, 3)
 
     # ---------------------------------------------------------------- D2
+    # decided on the symbolic walk of the writers (private helpers, tables, generators looked through;
+    # the public writers of other classes stay calls): on every path the count that is announced is the
+    # number of blocks that follow
+    from ..symx import SymExec, canon_k
+    from ..lines import printed_value, lines_with_loops, default_none_env
     w = m.func('mininec.Mininec.as_basic_input')
-    wfl = ctx.flow(w)
-    body_txt = [norm(s) for s in w.body()]
+    bq = {g_.qual for g_ in m.all_funcs() if g_.name == 'as_basic_input'}
+    wpaths = [p_ for p_ in SymExec(ctx, w, bind_loops=True, no_expand=bq - {w.qual}, max_paths=20000).run(
+        env=default_none_env(w)) if p_.end != 'raise']
+    ck.floor('paths through Mininec.as_basic_input (options at their defaults)', len(wpaths), 8)
+    strip_enum = lambda t_: re.sub(r'^enumerate\((.*)\)$', r'\1', t_)
 
-    def appended_after(count_expr_txt, loop_iter_txt, call_attr):
-        """r.append(str(<count>)) followed by a loop over <iter> appending one writer call each"""
-        cnt = [s for s in walk_no_nested(w.node) if isinstance(s, ast.Expr) and
-               norm(s) == 'r.append(str(%s))' % count_expr_txt]
-        lp = [l for l in loops_in(w.node) if isinstance(l, ast.For) and norm(l.iter) == loop_iter_txt and
-              any(isinstance(c, ast.Call) and isinstance(c.func, ast.Attribute) and c.func.attr == call_attr
-                  for c in ast.walk(l))]
-        return cnt, lp
-
-    def one_per_iter(l, call_attr):
-        lv = l.target.id if isinstance(l.target, ast.Name) else '?'
-        return loop_reaches_on_all_paths(wfl, l, lambda n: n.kind == 'stmt' and n.stmt is not None and any(
-            isinstance(c, ast.Call) and isinstance(c.func, ast.Attribute) and c.func.attr == call_attr and
-            norm(c.func.value) == lv for c in ast.walk(n.stmt)))
-
-    cnt, lp = appended_after('len(self.sources)', 'self.sources', 'as_basic_input')
-    ok = len(cnt) == 1 and len(lp) == 1 and one_per_iter(lp[0], 'as_basic_input') == (1, 1) and \
-        wfl.cfg.must_pass(wfl.cfg.node_of(lp[0]), {wfl.node_id_of(cnt[0])})
-    ck.ob('R-EXH.counts', w.qual + '|sources', ok, w.loc(cnt[0] if cnt else None),
-          'NO. OF SOURCES = len(self.sources), then one block per source')
-    # counts announced as a sum over a collection (accumulator loop or sum(generator))
-    from ..lines import sums_over, entries_per_element
-    announced = {}
-    for s_ in walk_no_nested(w.node):
-        if isinstance(s_, ast.Expr) and isinstance(s_.value, ast.Call) and norm(s_.value.func) == 'r.append' and \
-           len(s_.value.args) == 1:
-            a_ = s_.value.args[0]
-            if isinstance(a_, ast.Call) and isinstance(a_.func, ast.Name) and a_.func.id == 'str' and \
-               len(a_.args) == 1 and isinstance(a_.args[0], ast.Name):
-                for kind_, it_, el_, lp_, st_ in sums_over(wfl, a_.args[0].id, wfl.node_id_of(s_)):
-                    announced.setdefault((it_, el_), []).append((s_, st_))
-    ck.info('announced_sums', sorted('%s over %s' % (el_, it_) for it_, el_ in announced))
-
-    def blocks_follow(key, label, text):
-        hits = announced.get(key, [])
-        ok = len(hits) == 1
-        if ok:
-            lp = [l for l in loops_in(w.node) if isinstance(l, ast.For) and norm(l.iter) == key[0] and
-                  any(isinstance(c, ast.Call) and isinstance(c.func, ast.Attribute) and c.func.attr == 'as_basic_input'
-                      for c in ast.walk(l))]
-            ok = len(lp) == 1 and one_per_iter(lp[0], 'as_basic_input') == (1, 1) and \
-                wfl.cfg.must_pass(wfl.cfg.node_of(lp[0]), {wfl.node_id_of(hits[0][0])})
-        ck.ob('R-EXH.counts', w.qual + '|' + label, ok, w.loc(hits[0][1] if hits else None), text)
-    blocks_follow(('self.geo', '_.n_emulated_wires'), 'wires',
-                  'NO. OF WIRES = sum of emulated wires, then one writer call per object')
-    blocks_follow(('self.loads', 'len(_.pulses)'), 'loads',
-                  'NUMBER OF LOADS = sum(len(l.pulses)), then one writer call per load')
+    def count_then_blocks(coll, count_txt, label, text):
+        bad = None
+        n_entered = 0
+        for p_ in wpaths:
+            ent = any(k_ == 'loop' and strip_enum(t_) == coll for k_, t_ in p_.conds)
+            skp = any(k_ == 'loop-skipped' and strip_enum(t_) == coll for k_, t_ in p_.conds)
+            L = lines_with_loops(p_)
+            comp = any(coll in lp_ for e_, lp_, st_ in L)
+            if ent and skp:
+                continue        # the same collection empty and not empty
+            cnt = [i_ for i_, (e_, lp_, st_) in enumerate(L)
+                   if printed_value(e_) is not None and canon_k(norm(printed_value(e_))) == count_txt]
+            blk = [i_ for i_, (e_, lp_, st_) in enumerate(L) if any(
+                isinstance(c_, ast.Call) and isinstance(c_.func, ast.Attribute) and c_.func.attr == 'as_basic_input'
+                and re.match(re.escape(coll) + r'\[_k\d+\]$', norm(c_.func.value)) for c_ in ast.walk(e_))]
+            want_blk = 1 if (ent or comp) else 0
+            n_entered += want_blk
+            if len(cnt) != 1:
+                bad = bad or ('the count %s is written %d times' % (count_txt, len(cnt)), p_, L)
+            elif len(blk) != want_blk:
+                bad = bad or ('%d writer calls per element' % len(blk), p_, L)
+            elif blk and blk[0] < cnt[0]:
+                bad = bad or ('the blocks come before the count', p_, L)
+        ok = bad is None and n_entered > 0
+        ck.ob('R-EXH.counts', w.qual + '|' + label, ok, w.loc(bad[2][0][2]) if bad and bad[2] and bad[2][0][2] is not None else w.loc(),
+              text if ok else '%s: %s on the path %s' % (text, bad[0] if bad else 'no path writes the blocks',
+                                                         [c_ for c_ in (bad[1].conds if bad else ())][:5]))
+    count_then_blocks('self.sources', 'len(self.sources)', 'sources',
+                      'NO. OF SOURCES = len(self.sources), then one block per source')
+    count_then_blocks('self.geo', 'sum(_each(self.geo[_k0].n_emulated_wires, self.geo))', 'wires',
+                      'NO. OF WIRES = sum of emulated wires, then one writer call per object')
+    count_then_blocks('self.loads', 'sum(_each(len(self.loads[_k0].pulses), self.loads))', 'loads',
+                      'NUMBER OF LOADS = sum(len(l.pulses)), then one writer call per load')
     # each load writer: one entry per pulse
     for q in ('mininec.Impedance_Load.as_basic_input', 'mininec.Distributed_Load.as_basic_input',
               'mininec.Laplace_Load.as_basic_input'):
         g = m.func(q)
-        form, cntr = entries_per_element(ctx, g, 'self.pulses', lambda txt, v: ('%s.idx + 1' % v) in txt)
-        ck.ob('R-EXH.counts', q, cntr == (1, 1), g.loc(),
-              'one entry (with 1-based pulse number) per attached pulse: %s %s' % (form, cntr))
+        gp = [p_ for p_ in SymExec(ctx, g, bind_loops=True, no_expand=bq - {g.qual}, max_paths=5000).run()
+              if p_.end != 'raise']
+        got = set()
+        n_ent = 0
+        for p_ in gp:
+            ent = any(k_ == 'loop' and strip_enum(t_) == 'self.pulses' for k_, t_ in p_.conds)
+            skp = any(k_ == 'loop-skipped' and strip_enum(t_) == 'self.pulses' for k_, t_ in p_.conds)
+            L = lines_with_loops(p_)
+            comp = any('self.pulses' in lp_ for e_, lp_, st_ in L)
+            if ent and skp:
+                continue
+            heads = [e_ for e_, lp_, st_ in L if re.search(r'self\.pulses\[_k\d+\]\.idx \+ 1', norm(e_))]
+            n_ent += 1 if (ent or comp) else 0
+            got.add((bool(ent or comp), len(heads)))
+        ok = got <= {(True, 1), (False, 0)} and n_ent > 0
+        ck.ob('R-EXH.counts', q, ok, g.loc(),
+              'one entry (with 1-based pulse number) per attached pulse: (pulses?, entries) %s' % sorted(got))
     # wire blocks: on every path the answers come in blocks of five (segments, end 1, end 2, radius, N);
     # a single wire writes one block, an emulated one a first block plus one per further segment
-    from ..fmt import Evaluator, template_text, arg_text
     g = m.func('mininec.Geobj.as_basic_input')
-    ev = Evaluator(g, ctx)
-    by_path = {}
-    for (t, conds, il, node, pconds) in ev.emissions():
-        by_path.setdefault(pconds, []).append((t, conds, il))
+    gp = [p_ for p_ in SymExec(ctx, g, bind_loops=True, no_expand=bq - {g.qual}, max_paths=5000).run() if p_.end != 'raise']
 
-    def block_ok(blk):
+    def block_ok(blk, first_kind):
         if len(blk) != 5:
             return False
-        txt = [template_text(t) for t, c_, il_ in blk]
-        args = [[arg_text(p_[2]) for p_ in t if p_[0] == 'conv'] for t, c_, il_ in blk]
-        return txt[4] == 'N' and args[3] == ['self.r'] and len(args[1]) in (1, 3) and len(args[2]) in (1, 3) \
-            and (txt[0] == '1' or args[0] == ['self.n_segments'])
-    ok = len(by_path) == 2
-    why = '%d paths' % len(by_path)
+        v0 = printed_value(blk[0]) if printed_value(blk[0]) is not None else blk[0]
+        head = (isinstance(v0, ast.Constant) and str(v0.value) == '1') if first_kind == 'one' else norm(v0) == 'self.n_segments'
+        coords = all(isinstance(b_, ast.BinOp) and isinstance(b_.op, ast.Mod) and isinstance(b_.left, ast.Constant)
+                     and isinstance(b_.left.value, str) and b_.left.value.count('%') == 3 for b_ in blk[1:3])
+        rad = isinstance(blk[3], ast.BinOp) and isinstance(blk[3].op, ast.Mod) and norm(blk[3].right) in ('self.r', '(self.r,)')
+        return head and coords and rad and isinstance(blk[4], ast.Constant) and blk[4].value == 'N'
+    ok = bool(gp)
     shapes = []
-    for pc, ems in sorted(by_path.items(), key=lambda kv: str(kv[0])):
-        single = [b for (t_, b) in pc if t_ == 'self.n_emulated_wires == 1' and isinstance(b, bool)]
-        flat = [e_ for e_ in ems if not e_[2]]
-        loop = [e_ for e_ in ems if e_[2]]
-        loop_iters = {c_[1] for t_, cs, il_ in loop for c_ in cs if c_[0] == 'loop'}
-        shapes.append((single, len(flat), len(loop), sorted(loop_iters)))
+    seen_single = set()
+    for p_ in gp:
+        single = [b_ for (t_, b_) in p_.conds if t_ == 'self.n_emulated_wires == 1' and isinstance(b_, bool)]
+        ent = any(k_ == 'loop' and t_ == 'self.segments[1:]' for k_, t_ in p_.conds)
+        skp = any(k_ == 'loop-skipped' and t_ == 'self.segments[1:]' for k_, t_ in p_.conds)
+        if ent and skp:
+            continue
+        L = lines_with_loops(p_)
+        flat = [e_ for e_, lp_, st_ in L if not lp_]
+        loop = [e_ for e_, lp_, st_ in L if lp_]
+        loop_iters = sorted({x_ for e_, lp_, st_ in L for x_ in lp_})
+        shapes.append((single, len(flat), len(loop), loop_iters))
+        seen_single |= set(single)
         if single == [True]:
-            ok = ok and block_ok(flat) and not loop and 'self.n_segments' in str(
-                [arg_text(p_[2]) for p_ in flat[0][0] if p_[0] == 'conv'])
+            ok = ok and block_ok(flat, 'n_segments') and not loop
         elif single == [False]:
-            ok = ok and block_ok(flat) and block_ok(loop) and loop_iters == {'self.segments[1:]'} and \
-                template_text(flat[0][0]) == '1' and template_text(loop[0][0]) == '1'
+            ok = ok and block_ok(flat, 'one') and ((block_ok(loop, 'one') and loop_iters == ['self.segments[1:]'])
+                                                   if not skp else not loop)
         else:
             ok = False
-    why = 'paths (single?, answers, answers per further segment, loop): %s' % shapes
+    ok = ok and seen_single == {True, False}
+    why = 'paths (single?, answers, answers per further segment, loop): %s' % sorted(shapes, key=str)
     ck.ob('R-EXH.counts', g.qual + '|wire-blocks', ok, g.loc(), why)
     # n_emulated_wires definitions agree with the number of blocks written
     wprop = m.func('mininec.Wire.n_emulated_wires')
